@@ -1,4 +1,7 @@
 import TsVerif.C20.Props
 #print axioms TsVerif.C20.splitIncl_flatten
+#print axioms TsVerif.C20.updateLangs_spec
+#print axioms TsVerif.C20.updateEntry_spec
 #print axioms TsVerif.C20.updateEntries_keys
+#print axioms TsVerif.C20.updateEntries_keys_fixed
 #print axioms TsVerif.C20.update_preserves_partial
